@@ -157,6 +157,17 @@ func (c *fakeSyncClient) SendTreeRequest(ctx context.Context, req syncdeps.Reque
 type fakeTreeManager struct {
 	w      *world
 	marked map[string]int
+	// onDone, when set, is called once after the first MarkTreeDeleted / DeleteTree completed (used to
+	// cancel the worker's context: a crash right after the first id of a worker pass)
+	onDone func(id string)
+}
+
+func (t *fakeTreeManager) done(id string) {
+	if t.onDone != nil {
+		f := t.onDone
+		t.onDone = nil
+		f(id)
+	}
 }
 
 func (t *fakeTreeManager) Init(a *app.App) error         { return nil }
@@ -173,6 +184,7 @@ func (t *fakeTreeManager) ValidateAndPutTree(ctx context.Context, spaceId string
 }
 func (t *fakeTreeManager) MarkTreeDeleted(ctx context.Context, spaceId, treeId string) error {
 	t.marked[treeId]++
+	t.done(treeId)
 	return nil
 }
 func (t *fakeTreeManager) DeleteTree(ctx context.Context, spaceId, treeId string) error {
@@ -184,6 +196,7 @@ func (t *fakeTreeManager) DeleteTree(ctx context.Context, spaceId, treeId string
 		return err
 	}
 	delete(t.w.live, treeId)
+	t.done(treeId)
 	return nil
 }
 
@@ -279,7 +292,7 @@ type world struct {
 	// parked fetch
 	fetchIdx  int
 	fetchDone chan fetchRes
-	snapNext  bool // decision for the next local delete's DoSnapshot
+	recSeq    int64
 }
 
 type fetchRes struct {
